@@ -276,6 +276,55 @@ def preloads_reused_over_three_inversions(mask, data, noise, kernel, objects, di
     return None
 
 
+@bounded("C15", "preloads-shared-by-interleaved-inversions", gen=_gen_reuse,
+         nontrivial=lambda mask, data, noise, kernel, objects, diag, use_w_tilde, slots, same_dataset: True)
+@guarded
+def preloads_shared_by_interleaved_inversions(mask, data, noise, kernel, objects, diag, use_w_tilde, slots, same_dataset):
+    """C15: 'Supplying preloaded quantities ... yields the same data vector, reconstruction, mapped data and evidence terms as
+    computing everything afresh ... Reusing one set of preloads for any number of successive inversions on the same inputs gives
+    the identical outcome every time' -- the outcome is what the inversion reports WHENEVER it is asked: three inversions are
+    built on one Preloads object (curvature_matrix always preloaded) and their outputs are read lazily, round-robin across the
+    three, each in its own rotated order (reconstruction first / curvature_matrix between reconstruction and the evidence terms
+    / evidence terms first), then every output once more; all equal to the fresh computation; 9 mixes x both formalisms x 16
+    (200) datasets."""
+    import autoarray as aa
+    _, ref = run(aa, mask, data, noise, kernel, objects, diag, use_w_tilde)
+    vals = source_values(aa, mask, data, noise, kernel, objects, diag, use_w_tilde, slots)
+    pre = aa.Preloads(**vals)
+    ds_mk = make_dataset(aa, mask, data, noise, kernel) if same_dataset else None
+    invs = []
+    for i in range(3):
+        mk, ds = ds_mk if ds_mk is not None else make_dataset(aa, mask, data, noise, kernel)
+        invs.append(aa.Inversion(dataset=ds, linear_obj_list=make_objects(aa, mk, objects), settings=settings(aa, use_w_tilde, diag), preloads=pre))
+    orders = [["reconstruction", "curvature_matrix", "log_det_curvature_reg_matrix_term", "data_vector", "regularization_matrix",
+               "mapped_reconstructed_data", "regularization_term", "log_det_regularization_matrix_term"],
+              ["log_det_curvature_reg_matrix_term", "regularization_term", "curvature_matrix", "reconstruction", "data_vector",
+               "log_det_regularization_matrix_term", "mapped_reconstructed_data", "regularization_matrix"],
+              list(OUTPUTS)]
+    got = [dict(), dict(), dict()]
+
+    def read(i, name):
+        try:
+            return np.array(getattr(invs[i], name), dtype=float)
+        except aa.exc.InversionException:
+            return "InversionException"
+
+    for step in range(len(OUTPUTS)):
+        for i in range(3):
+            got[i][orders[i][step]] = read(i, orders[i][step])
+    for i in range(3):
+        msg = compare(ref, got[i], "inversion %d of 3 sharing one Preloads %r, outputs read round-robin in the order %r, use_w_tilde=%s" % (
+            i + 1, slots, orders[i][:3], use_w_tilde))
+        if msg:
+            return msg
+    for i in range(3):
+        again = {name: read(i, name) for name in OUTPUTS}
+        msg = compare(ref, again, "inversion %d of 3 sharing one Preloads, every output read a second time" % (i + 1))
+        if msg:
+            return msg
+    return None
+
+
 def _gen_reuse_pieces(rng, tier):
     k = 0
     for rep in range(gens.budget(tier, 10, 120)):
